@@ -42,23 +42,23 @@ def g_lt(ctx, ec, em, mp, cfg):
         want = (st["pos"], st["acc"])
         dps = S.DPS_CHOICES[(r + a + T) % len(S.DPS_CHOICES)]
         mp.mp.dps = dps
-        got = ec.move_dist_lt(r, a, T, S.acc_arg(acc_in))
+        got = S.call(ec.move_dist_lt, r, a, T, S.acc_arg(acc_in))
         ctx.count(("G", r, a, acc_in, T))
         if len(seen) < 40000 and (T + r) % 2 == 0:
             seen.append((r, a, T, acc_in, want))
-        if got != want or not S.is_int(*got):
-            ctx.violation("lt.stepped_state", {"mode": "G", "fn": "move_dist_lt", "rate": r, "accel": a, "T": T, "accum": acc_in, "dps": dps},
+        if got != want:
+            ctx.violation("lt.raises" if isinstance(got, S.Raised) else "lt.stepped_state",
+                          {"mode": "G", "fn": "move_dist_lt", "rate": r, "accel": a, "T": T, "accum": acc_in, "dps": dps},
                           list(want), list(got) if isinstance(got, tuple) else repr(got))
-        # deprecated aliases
-        if acc_in != S.CLEAR:
-            mp.mp.dps = dps
-            g2 = em.moveDistLMA(r, a, T, acc_in)
-            if g2 != want:
-                ctx.violation("lt.alias_moveDistLMA", {"mode": "G", "fn": "moveDistLMA", "rate": r, "accel": a, "T": T, "accum": acc_in, "dps": dps},
-                              list(want), repr(g2))
+        # deprecated aliases (moveDistLMA takes the same accumulator argument, "clear" included)
+        mp.mp.dps = dps
+        g2 = S.call(em.moveDistLMA, r, a, T, S.acc_arg(acc_in))
+        if g2 != want:
+            ctx.violation("lt.alias_moveDistLMA", {"mode": "G", "fn": "moveDistLMA", "rate": r, "accel": a, "T": T, "accum": acc_in, "dps": dps},
+                          list(want), repr(g2))
         if acc_in == 0:
             mp.mp.dps = dps
-            g3 = em.moveDistLM(r, a, T)
+            g3 = S.call(em.moveDistLM, r, a, T)
             if g3 != want[0]:
                 ctx.violation("lt.alias_moveDistLM", {"mode": "G", "fn": "moveDistLM", "rate": r, "accel": a, "T": T, "dps": dps}, want[0], repr(g3))
         if len(events) < 30000 and (T in (1, 2, 3) or (r + a + T) % 7 == 0):
@@ -67,14 +67,16 @@ def g_lt(ctx, ec, em, mp, cfg):
             ctx.sample({"mode": "G", "rate": r, "accel": a, "accum": "clear" if acc_in == S.CLEAR else acc_in, "T": T,
                         "stepped": {"pos": want[0], "acc": want[1]}, "move_dist_lt": list(got)})
     # second pass in the opposite order (long moves first): the answer to a call may not depend on the calls made before it
+    prev = None
     for (r, a, T, acc_in, want) in reversed(seen):
         mp.mp.dps = 15
-        got = ec.move_dist_lt(r, a, T, S.acc_arg(acc_in))
+        got = S.call(ec.move_dist_lt, r, a, T, S.acc_arg(acc_in))
         if got != want:
             ctx.violation("lt.stepped_state", {"mode": "G", "fn": "move_dist_lt", "rate": r, "accel": a, "T": T, "accum": acc_in, "dps": 15,
-                                               "order": "second pass, reverse order"}, list(want), repr(got))
+                                               "order": "second pass, reverse order", "prelude": prev}, list(want), repr(got))
             if ctx.enough(30):
                 break
+        prev = [r, a, T, acc_in]
     # cross-check of the two oracles at full scale: stepped states must satisfy the BigInt closed form
     vs = S.judge(ctx, "g_cross", events)
     off = [(e, v) for e, v in zip(events, vs) if v != "ok"]
@@ -115,8 +117,19 @@ def v_lt(ctx, ec, em, mp, n):
         r, a, T, c = draw_lt(rng)
         dps = rng.choice(S.DPS_CHOICES)
         mp.mp.dps = dps
-        out = ec.move_dist_lt(r, a, T, S.acc_arg(c))
+        out = S.call(ec.move_dist_lt, r, a, T, S.acc_arg(c))
         events.append(S.ev_move("lt", r, a, 0, c, T, out, dps))
+        # the deprecated aliases return the same values, at every scale
+        mp.mp.dps = dps
+        events.append(S.ev_move("lt", r, a, 0, c, T, S.call(em.moveDistLMA, r, a, T, S.acc_arg(c)), dps, extra={"via": "moveDistLMA"}))
+        if c in (0, S.CLEAR):
+            mp.mp.dps = dps
+            g3 = S.call(em.moveDistLM, r, a, T)       # position only, accumulator 0: judged with the accumulator move_dist_lt reports from 0
+            full = out if c == 0 else S.call(ec.move_dist_lt, r, a, T, 0)
+            pair = (g3, full[1]) if S.ints(g3) and S.ints(full, 2) else g3
+            events.append(S.ev_move("lt", r, a, 0, 0, T, pair, dps, extra={"via": "moveDistLM"}))
+    for e in events:
+        e.setdefault("via", "move_dist_lt")
     vs = S.judge(ctx, "v", events)
     rej = 0
     for e, v in zip(events, vs):
@@ -126,7 +139,9 @@ def v_lt(ctx, ec, em, mp, n):
         ctx.count(("V", e["r"], e["a"], e["c"], tuple(e["T"]["d"])))
         if v != "ok":
             rej += 1
-            ctx.violation(v, {"mode": "V", "fn": "move_dist_lt", "rate": e["r"], "accel": e["a"], "T": vlib.from_limbs(e["T"]),
+            if e["via"] != "move_dist_lt":
+                v = "lt.alias_" + e["via"]
+            ctx.violation(v, {"mode": "V", "fn": e["via"], "rate": e["r"], "accel": e["a"], "T": vlib.from_limbs(e["T"]),
                               "accum": e["c"], "dps": e["dps"]}, "closed form of the recurrence", e["raw"])
     ctx.traces += len(events)
     e0 = events[0]
@@ -163,19 +178,23 @@ def run(ctx):
 def replay(rec):
     ec, em, mp = S.mods()
     c = rec["case"]
-    mp.mp.dps = c.get("dps", 15)
     r, a, T = c["rate"], c["accel"], c["T"]
+    if c.get("prelude"):
+        pr, pa, pT, pc = c["prelude"]                 # observed after this call had been made
+        mp.mp.dps = 15
+        S.call(ec.move_dist_lt, pr, pa, pT, S.acc_arg(pc))
+    mp.mp.dps = c.get("dps", 15)
     acc = c.get("accum", 0)
     want = S.total_at(r, a, 0, acc, T)
     want = (want // S.M, want % S.M)
     fn = c["fn"]
     if fn == "moveDistLM":
-        got = em.moveDistLM(r, a, T)
+        got = S.call(em.moveDistLM, r, a, T)
         want = (S.total_at(r, a, 0, 0, T)) // S.M
     elif fn == "moveDistLMA":
-        got = em.moveDistLMA(r, a, T, acc)
+        got = S.call(em.moveDistLMA, r, a, T, S.acc_arg(acc))
     else:
-        got = ec.move_dist_lt(r, a, T, S.acc_arg(acc))
+        got = S.call(ec.move_dist_lt, r, a, T, S.acc_arg(acc))
     # TLC is the judge: re-validate this single event
     ctx = vlib.Ctx("C01", "quick", 0, LEVEL, fresh=False)
     if fn == "moveDistLM":
